@@ -179,6 +179,36 @@ pub struct PolicyCase {
     pub style: u8,
 }
 
+impl PolicyCase {
+    /// The hardware address the client sends: one of the configured 6-octet addresses, or (one
+    /// case in eight each) that address followed by two more octets (hlen 8, an EUI-64), padded
+    /// to the full 16-octet field, or cut to 5 octets.  Only the 6-octet form *is* the
+    /// configured address.
+    pub fn chaddr(&self) -> Vec<u8> {
+        let mut m = MACS[self.mac as usize].to_vec();
+        match self.style >> 5 {
+            7 => m.extend_from_slice(&[0xab, 0xcd]),
+            6 => m.resize(16, 0),
+            5 => m.truncate(5),
+            _ => {}
+        }
+        m
+    }
+    pub fn plain_hw(&self) -> bool {
+        self.style >> 5 < 5
+    }
+    /// Option 57 (maximum DHCP message size) of the request, if it sends one.
+    pub fn max_message_size(&self) -> Option<u16> {
+        match (self.style as u32 * 31 + self.mac as u32 * 7) % 8 {
+            0 => Some(576),
+            1 => Some(0),
+            2 => Some(1500),
+            3 => Some(300),
+            _ => None,
+        }
+    }
+}
+
 // ---------------------------------------------------------------------------------------------
 // generators
 
@@ -207,10 +237,15 @@ fn unet(minlen: u8, maxlen: u8, hostbits: bool) -> impl Strategy<Value = Net4> {
 fn optval_strategy(kind: u8) -> BoxedStrategy<OptVal> {
     match kind {
         0 => any::<u32>().prop_map(|a| OptVal::Ip(a.into())).boxed(),
-        1 => proptest::collection::vec(any::<u32>().prop_map(Ipv4Addr::from), 1..=3)
-            .prop_map(OptVal::IpList)
-            .boxed(),
-        2 => "[a-z][a-z0-9.-]{0,12}".prop_map(OptVal::Str).boxed(),
+        // mostly short; one in ten as long as one option can carry (replies of several hundred
+        // octets: above the 576 a client accepts unless it says otherwise)
+        1 => prop_oneof![
+            9 => proptest::collection::vec(any::<u32>().prop_map(Ipv4Addr::from), 1..=3),
+            1 => proptest::collection::vec(any::<u32>().prop_map(Ipv4Addr::from), 40..=63),
+        ]
+        .prop_map(OptVal::IpList)
+        .boxed(),
+        2 => prop_oneof![9 => "[a-z][a-z0-9.-]{0,12}", 1 => "[a-z][a-z0-9.-]{180,250}"].prop_map(OptVal::Str).boxed(),
         3 => any::<u8>().prop_map(OptVal::U8).boxed(),
         4 => any::<u16>().prop_map(OptVal::U16).boxed(),
         5 => any::<bool>().prop_map(OptVal::Bool).boxed(),
@@ -530,7 +565,7 @@ fn cond(p: &PolSpec, c: &PolicyCase) -> Cond {
     }
     if let Some(h) = p.match_hw {
         any = true;
-        if h != c.mac {
+        if h != c.mac || !c.plain_hw() {
             return Cond::Fails;
         }
     }
@@ -649,7 +684,10 @@ pub fn build_request(c: &PolicyCase, msgtype: u8, client_id: Option<Vec<u8>>, re
         xid: 0x5151,
         ..Default::default()
     };
-    m.set_hw(&MACS[c.mac as usize]);
+    m.set_hw(&c.chaddr());
+    if c.chaddr().len() == 8 {
+        m.htype = 27;
+    }
     m.options.push((wire::OPT_MSG_TYPE, vec![msgtype]));
     if let Some(id) = client_id {
         m.options.push((wire::OPT_CLIENT_ID, id));
@@ -662,6 +700,9 @@ pub fn build_request(c: &PolicyCase, msgtype: u8, client_id: Option<Vec<u8>>, re
     }
     if let Some(pl) = &c.param_list {
         m.options.push((wire::OPT_PARAM_LIST, pl.clone()));
+    }
+    if let Some(sz) = c.max_message_size() {
+        m.options.push((57, sz.to_be_bytes().to_vec()));
     }
     dhcp::DHCPRequest {
         pkt: dhcppkt::parse(&m.encode()).expect("harness request parses"),
@@ -1105,13 +1146,36 @@ impl Prop for ReplyInvariants {
                 req.pkt.options.other.insert(dhcppkt::OPTION_SERVERID, c.serverip.octets().to_vec());
             }
             let before = wall_now_s();
+            let rows_before = crate::hist::rows_of(&mut pool);
             let reply = match dhcp::handle_pkt(&mut pool, &req, ids.clone(), &conf) {
                 Ok(r) => r,
-                Err(_) => {
+                Err(e) => {
                     out.class("no-reply");
+                    // whatever the reason, a message that is not answered leaves the store alone
+                    let rows_after = crate::hist::rows_of(&mut pool);
+                    if self.which == "C13" && rows_after != rows_before {
+                        out.nontrivial = true;
+                        out.fail(
+                            "C13:unanswered-message-changed-the-store",
+                            format!(
+                                "the {} got no reply ({}), yet the lease store went from {} to {} rows (request option 57: {:?})",
+                                if step == 0 { "DISCOVER" } else { "REQUEST" },
+                                e,
+                                rows_before.len(),
+                                rows_after.len(),
+                                c.max_message_size()
+                            ),
+                        );
+                    }
                     return out;
                 }
             };
+            if got_len(&reply) > 548 {
+                out.class("reply-longer-than-548-octets");
+                if self.which == "C13" {
+                    out.nontrivial = true;
+                }
+            }
             let kind = if step == 0 { "offer" } else { "ack" };
             let got = crate::hist::options_of(&reply.options);
             if self.which == "C13" {
@@ -1165,6 +1229,10 @@ impl Prop for ReplyInvariants {
         }
         out
     }
+}
+
+fn got_len(reply: &dhcppkt::Dhcp) -> usize {
+    reply.serialise().len()
 }
 
 fn wall_now_s() -> i64 {
